@@ -295,9 +295,12 @@ def Consistent (pc : PCodec) (e : SEntry AsEntry) : Prop :=
   ∃ h body rb, pc.c.decHB e.signed.hb = some (h, body) ∧ pc.decBody body = some rb ∧
     entryFromBody rb = .ok e.entry
 
-/-- the info is what `SegmentInfo::new` builds from values of the field types -/
-def InfoCanonical (pc : PCodec) (i : Info) : Prop :=
-  i.encoded = pc.encInfo { timestamp := i.timestamp, segmentId := i.segmentId } ∧
+/-- the info's raw bytes decode to its `timestamp` / `segment_id` fields, which have values of their Rust
+types (`u32`, `u16`).  Holds for everything `SegmentInfo::new` builds (`infoNew_consistent`, given the protobuf
+law) and for everything `try_from_rpc` returns (`seg_from_rpc_consistent`); the struct has public fields, so
+other values can be written down. -/
+def InfoConsistent (pc : PCodec) (i : Info) : Prop :=
+  pc.decInfo i.encoded = some { timestamp := (i.timestamp : Int), segmentId := i.segmentId } ∧
   i.timestamp < 2 ^ SI_TIMESTAMP_BITS ∧ i.segmentId < 2 ^ SI_SEGID_BITS
 
 theorem tryU_ok (x bits : Nat) (e : RErr) (y : Nat) (h : tryU x bits e = .ok y) : y = x ∧ x < 2 ^ bits := by
@@ -416,7 +419,7 @@ theorem infoFromRpc_ok (pc : PCodec) (ts sid : Nat) (hts : ts < 2 ^ SI_TIMESTAMP
 theorem segFromRpc_eq (pc : PCodec) (r : RSegment) (i : RSegInfo) (info : Info) (es : List (SEntry AsEntry))
     (h1 : pc.decInfo r.segmentInfo = some i) (h2 : infoFromRpc pc i = .ok info)
     (h3 : mapE (asEntryFromRpc pc) r.asEntries = .ok es) :
-    segFromRpc pc r = .ok { info := info, entries := es } := by
+    segFromRpc pc r = .ok { info := { info with encoded := r.segmentInfo }, entries := es } := by
   unfold segFromRpc
   rw [h1]
   simp only
@@ -424,36 +427,126 @@ theorem segFromRpc_eq (pc : PCodec) (r : RSegment) (i : RSegInfo) (info : Info) 
   simp only
   rw [h3]
 
-/-- **Segment → RPC → segment is the identity** on every segment whose info is canonical and whose entries
-are consistent with their signed bodies. -/
-theorem seg_rpc_roundtrip (pc : PCodec) (hpc : pc.Lawful) (s : Segment)
-    (hinfo : InfoCanonical pc s.info) (hent : ∀ e ∈ s.entries, Consistent pc e) :
+/-- **Ties for the segment-info bytes** (translator classification of `SignedPathSegment::{try_from_rpc,
+into_rpc}` in segment/rpc.rs): `try_from_rpc` stores the received `segment_info` bytes in `info.encoded`
+(1; 2 = the original code, which kept the re-encoding of `SegmentInfo::new`), `into_rpc` sends
+`self.info.encoded` (1; 2 = re-encodes).  `segFromRpc` / `segToRpc` model exactly kind 1; if the code goes
+back, these obligations fail. -/
+theorem info_kept_raw : SEG_INFO_KEPT = 1 := by decide
+theorem info_sent_raw : SEG_INFO_SENT = 1 := by decide
+
+theorem asEntryFromRpc_signed (pc : PCodec) (a : RAsEntry) (b : SEntry AsEntry)
+    (hb : asEntryFromRpc pc a = .ok b) : some b.signed = a.signed := by
+  unfold asEntryFromRpc at hb
+  split at hb
+  · cases hb
+  · rename_i sm hsm
+    split at hb
+    · cases hb
+    · split at hb
+      · cases hb
+      · split at hb
+        · cases hb
+        · simp only [Except.ok.injEq] at hb
+          subst hb
+          exact hsm.symm
+
+theorem mapE_asEntry_signed (pc : PCodec) : ∀ (l : List RAsEntry) (es : List (SEntry AsEntry)),
+    mapE (asEntryFromRpc pc) l = .ok es → es.map (fun e => some e.signed) = l.map (·.signed)
+  | [], es, h => by simp only [mapE, Except.ok.injEq] at h; subst h; rfl
+  | a :: as, es, h => by
+    unfold mapE at h
+    split at h
+    · cases h
+    · rename_i b hb
+      split at h
+      · cases h
+      · rename_i bs hbs
+        simp only [Except.ok.injEq] at h
+        subst h
+        simp only [List.map_cons, mapE_asEntry_signed pc as bs hbs, asEntryFromRpc_signed pc a b hb]
+
+/-- **The header the verifier binds is the header it received.**  Whatever `try_from_rpc` returns carries,
+byte for byte, the received `segment_info` and the received (`header_and_body`, `signature`) pairs in the
+received order — nothing that enters the associated data is re-encoded.  (False on the original code for
+`segment_info`: corpus/C18/030, 031; fixed c0ed6e0.) -/
+theorem seg_from_rpc_keeps_signed_bytes (pc : PCodec) (r : RSegment) (s : Segment) (h : segFromRpc pc r = .ok s) :
+    s.info.encoded = r.segmentInfo ∧ s.entries.map (fun e => some e.signed) = r.asEntries.map (·.signed) := by
+  unfold segFromRpc at h
+  split at h
+  · cases h
+  · split at h
+    · cases h
+    · simp only at h
+      split at h
+      · cases h
+      · rename_i es hes
+        simp only [Except.ok.injEq] at h
+        subst h
+        exact ⟨rfl, mapE_asEntry_signed pc _ _ hes⟩
+
+/-- **What acceptance of an entry of a *received* segment binds, in terms of the received message.**  If
+`try_from_rpc` turned the RPC message `r` into `s` and `validate_signature` accepts the entry `e` of `s`, then
+the key resolved for the header's key id verifies `e`'s signature over
+`header_and_body ‖ r.segment_info ‖ (hb, sig) of the entries the take_while selects` — the first associated-data
+chunk is the received info itself, so *any* change of the received info bytes (a flipped bit, but also another
+encoding of the same timestamp / segment id) changes the verified byte string
+(`bitflip_changes_bound_bytes`) or its length (`length_change_rejected`). -/
+theorem received_info_is_bound (pc : PCodec) (S : Scheme PK SK) (kp : Bytes → Except VErr PK)
+    (r : RSegment) (s : Segment) (hs : segFromRpc pc r = .ok s) (e : SEntry AsEntry) (hdr : Header) (body : Bytes)
+    (h : validateEntry pc.c S kp s.signedView e = .ok (hdr, body)) :
+    ∃ pk a, kp hdr.keyId = .ok pk ∧ algOfI32 hdr.alg = some a ∧
+      S.verify pk a (e.signed.hb ++ r.segmentInfo ++
+        (chunks (s.entries.takeWhile fun x => x.entry != e.entry)).flatten) e.signed.sig = true ∧
+      i32ToUsize hdr.adLen = r.segmentInfo.length +
+        total (chunks (s.entries.takeWhile fun x => x.entry != e.entry)) := by
+  obtain ⟨pk, a, h1, h2, h3, h4⟩ := validate_binds pc.c S kp s.signedView e hdr body h
+  have hi := (seg_from_rpc_keeps_signed_bytes pc r s hs).1
+  refine ⟨pk, a, h1, h2, ?_, ?_⟩
+  · simpa [assocTW, Segment.signedView, hi, List.append_assoc] using h3
+  · simpa [assocTW, Segment.signedView, hi, total] using h4
+
+/-- **Segment → RPC → segment is the identity** on every segment whose info is consistent and whose entries
+are consistent with their signed bodies (no hypothesis on the protobuf codec is needed any more: the info
+bytes travel unchanged). -/
+theorem seg_rpc_roundtrip (pc : PCodec) (s : Segment)
+    (hinfo : InfoConsistent pc s.info) (hent : ∀ e ∈ s.entries, Consistent pc e) :
     segFromRpc pc (segToRpc pc s) = .ok s := by
-  obtain ⟨henc, hts, hsid⟩ := hinfo
-  have hd := hpc.info { timestamp := (s.info.timestamp : Int), segmentId := s.info.segmentId }
-  have hi : infoFromRpc pc { timestamp := (s.info.timestamp : Int), segmentId := s.info.segmentId } = .ok s.info := by
-    rw [infoFromRpc_ok pc _ _ hts hsid]
-    cases hs : s.info
-    rw [hs] at henc
-    simp only at henc
-    simp [infoNew, henc]
+  obtain ⟨hdec, hts, hsid⟩ := hinfo
+  have hi := infoFromRpc_ok pc _ _ hts hsid
   have hm : mapE (asEntryFromRpc pc) (s.entries.map fun e => ({ signed := some e.signed } : RAsEntry)) = .ok s.entries := by
     apply mapE_map
     intro e he
     obtain ⟨h, body, rb, h1, h2, h3⟩ := hent e he
     simp [asEntryFromRpc, h1, h2, h3]
-  exact segFromRpc_eq pc (segToRpc pc s) _ _ _ hd hi hm
+  have := segFromRpc_eq pc (segToRpc pc s) _ _ _ hdec hi hm
+  rw [this]
+  cases s with
+  | mk info entries => cases info; simp [segToRpc, infoNew]
 
-/-- everything `try_from_rpc` returns is canonical and consistent … -/
-theorem seg_from_rpc_canonical (pc : PCodec) (r : RSegment) (s : Segment) (h : segFromRpc pc r = .ok s) :
-    InfoCanonical pc s.info ∧ ∀ e ∈ s.entries, Consistent pc e := by
+/-- **What `into_rpc` sends as segment info is what the entries were signed over** (`info.encoded`, the first
+chunk of every entry's associated data), for every segment. -/
+theorem seg_to_rpc_sends_signed_info (pc : PCodec) (s : Segment) :
+    (segToRpc pc s).segmentInfo = s.signedView.info ∧
+    (segToRpc pc s).asEntries.map (·.signed) = s.entries.map (fun e => some e.signed) := by
+  simp [segToRpc, Segment.signedView]
+
+/-- `SegmentInfo::new` builds a consistent info (given that prost decodes what it encoded) -/
+theorem infoNew_consistent (pc : PCodec) (hpc : pc.Lawful) (ts sid : Nat)
+    (hts : ts < 2 ^ SI_TIMESTAMP_BITS) (hsid : sid < 2 ^ SI_SEGID_BITS) : InfoConsistent pc (infoNew pc ts sid) :=
+  ⟨hpc.info _, hts, hsid⟩
+
+/-- everything `try_from_rpc` returns is consistent … -/
+theorem seg_from_rpc_consistent (pc : PCodec) (r : RSegment) (s : Segment) (h : segFromRpc pc r = .ok s) :
+    InfoConsistent pc s.info ∧ ∀ e ∈ s.entries, Consistent pc e := by
   unfold segFromRpc at h
   split at h
   · cases h
-  · rename_i i _
+  · rename_i i hdec
     split at h
     · cases h
     · rename_i info hi
+      simp only at h
       split at h
       · cases h
       · rename_i es hes
@@ -469,11 +562,13 @@ theorem seg_from_rpc_canonical (pc : PCodec) (r : RSegment) (s : Segment) (h : s
               simp only [Except.ok.injEq] at hi
               subst hi
               obtain ⟨rfl, hlt⟩ := tryU_ok _ _ _ _ hsid
-              refine ⟨rfl, ?_, hlt⟩
-              simp only [infoNew]
               have h2 := hr.2
               have h1 := hr.1
-              omega
+              refine ⟨?_, ?_, hlt⟩
+              · simp only [infoNew]
+                rw [hdec, Int.toNat_of_nonneg h1]
+              · simp only [infoNew]
+                omega
           · cases hi
         · intro e he
           obtain ⟨re, _, hre⟩ := mapE_ok_forall _ _ _ hes e he
@@ -494,11 +589,21 @@ theorem seg_from_rpc_canonical (pc : PCodec) (r : RSegment) (s : Segment) (h : s
                   subst hre
                   exact ⟨hb, body, rb, h1, h2, h3⟩
 
-/-- … hence **RPC → segment → RPC → segment is stable**: values received over RPC round-trip exactly. -/
-theorem seg_rpc_idempotent (pc : PCodec) (hpc : pc.Lawful) (r : RSegment) (s : Segment)
+/-- … hence **RPC → segment → RPC → segment is stable**: values received over RPC round-trip exactly, for every
+message the conversion accepts (also when the received info is not the canonical encoding). -/
+theorem seg_rpc_idempotent (pc : PCodec) (r : RSegment) (s : Segment)
     (h : segFromRpc pc r = .ok s) : segFromRpc pc (segToRpc pc s) = .ok s := by
-  obtain ⟨hi, he⟩ := seg_from_rpc_canonical pc r s h
-  exact seg_rpc_roundtrip pc hpc s hi he
+  obtain ⟨hi, he⟩ := seg_from_rpc_consistent pc r s h
+  exact seg_rpc_roundtrip pc s hi he
+
+/-- … and the RPC message itself survives, up to the fields the conversion ignores (`unsigned` extensions):
+`into_rpc(try_from_rpc(r))` has the received info bytes and the received signed messages. -/
+theorem rpc_seg_rpc_identity (pc : PCodec) (r : RSegment) (s : Segment) (h : segFromRpc pc r = .ok s) :
+    (segToRpc pc s).segmentInfo = r.segmentInfo ∧
+    (segToRpc pc s).asEntries.map (·.signed) = r.asEntries.map (·.signed) := by
+  obtain ⟨h1, h2⟩ := seg_from_rpc_keeps_signed_bytes pc r s h
+  obtain ⟨h3, h4⟩ := seg_to_rpc_sends_signed_info pc s
+  exact ⟨by rw [h3]; exact h1, by rw [h4]; exact h2⟩
 
 /-- an `AsEntry` whose fields have the values their Rust types allow, with a `MAC_LEN`-byte MAC and no
 (unsupported) extensions -/
